@@ -11,17 +11,23 @@ def hitsOf : List Line → List Hit
   | .hit h :: rest => h :: hitsOf rest
   | .other _ :: rest => hitsOf rest
 
-/-- What the theorem asks of a hit shown in output style `style` (see Props/C16.lean). -/
+/-- What the theorem asks of a hit shown in output style `style` (see Props/C16.lean).
+Each disjunct `Generated.Grep.fix…` is a repair of the source the model follows
+(notes/C16.md): once it is present the corresponding demand is dropped. -/
 def hitOk (cfg : Cfg) (style : GrepType) (h : Hit) : Bool :=
-  h.kind != .ignore && h.num != some 0 &&
+  h.kind != .ignore && (h.num != some 0 || Generated.Grep.fixLineNumberZero) &&
   (match h.subs with
-   | none => h.kind != .match_ || h.prefixOk || h.code.isEmpty
+   | none =>
+     h.kind != .match_ || h.prefixOk || Generated.Grep.fixPrefixCheck ||
+       (style == .ripgrep && h.code.isEmpty)
    | some ss =>
-     h.kind != .match_ ||
+     h.kind != .match_ || Generated.Grep.fixSectionsGuard ||
        spansOk (expandTabs cfg.tabWidth h.code ss).1 0 (expandTabs cfg.tabWidth h.code ss).2) &&
   (match style with
-   | .ripgrep => h.num.isSome || !h.code.isEmpty
-   | .classic => !(h.kind == .contextHeader && cfg.headerAsHunkHeader) || h.num.isSome)
+   | .ripgrep => h.num.isSome || !h.code.isEmpty || Generated.Grep.fixEmptyRow
+   | .classic =>
+     !(h.kind == .contextHeader && cfg.headerAsHunkHeader) || h.num.isSome ||
+       Generated.Grep.fixHeaderNumber)
 
 theorem expandB_nil (w : Nat) : expandB w [] = [] := by
   unfold expandB; split <;> simp
@@ -34,47 +40,73 @@ theorem secsText_single (b : Bool) (t : Bytes) : secsText [(b, t)] = t := by
 /-- Under `hitOk` the code sections are computed without panic and spell the expanded code. -/
 theorem codeSections_ok (cfg : Cfg) (style : GrepType) (h : Hit)
     (hok : hitOk cfg style h = true) :
-    ∃ secs trail, codeSections cfg h = .ok (secs, trail) ∧
+    ∃ secs trail, codeSections cfg style h = .ok (secs, trail) ∧
       secsText secs = expandB cfg.tabWidth h.code := by
+  have hplain : ∀ b : Bool, ∃ secs trail,
+      (Except.ok (if (expandB cfg.tabWidth h.code).isEmpty then []
+        else [(false, expandB cfg.tabWidth h.code)], b) :
+          Except Panic (List (Bool × Bytes) × Bool)) = .ok (secs, trail) ∧
+      secsText secs = expandB cfg.tabWidth h.code := by
+    intro b
+    by_cases he : (expandB cfg.tabWidth h.code).isEmpty = true
+    · refine ⟨[], b, ?_, ?_⟩
+      · simp [he]
+      · rw [secsText_nil]; exact (List.isEmpty_iff.mp he).symm
+    · refine ⟨[(false, expandB cfg.tabWidth h.code)], b, ?_, ?_⟩
+      · simp [he]
+      · exact secsText_single _ _
   unfold codeSections
   split
   · rename_i subs hk hs
-    have hsp : spansOk (expandTabs cfg.tabWidth h.code subs).1 0
-        (expandTabs cfg.tabWidth h.code subs).2 = true := by
-      simp [hitOk, hk, hs] at hok
-      exact hok.1.2
-    obtain ⟨secs, h1, h2, _⟩ := makeStyleSections_ok _ _ hsp
-    refine ⟨secs, false, ?_, ?_⟩
-    · simp only [h1]
-    · exact h2
+    have hsp : Generated.Grep.fixSectionsGuard = true ∨
+        spansOk (expandTabs cfg.tabWidth h.code subs).1 0
+          (expandTabs cfg.tabWidth h.code subs).2 = true := by
+      simp only [hitOk, hk, hs, Bool.and_eq_true, Bool.or_eq_true] at hok
+      rcases hok.1.2 with (h1 | h1) | h1
+      · simp at h1
+      · exact .inl h1
+      · exact .inr h1
+    rcases hsp with hfix | hsp
+    · obtain ⟨secs, h1, h2⟩ := makeStyleSections_total hfix
+        (expandTabs cfg.tabWidth h.code subs).1 (expandTabs cfg.tabWidth h.code subs).2
+      refine ⟨secs, false, ?_, ?_⟩
+      · simp only [h1]
+      · exact h2
+    · obtain ⟨secs, h1, h2, _⟩ := makeStyleSections_ok _ _ hsp
+      refine ⟨secs, false, ?_, ?_⟩
+      · simp only [h1]
+      · exact h2
   · rename_i hk hs
-    by_cases he : (expandB cfg.tabWidth h.code).isEmpty = true
-    · refine ⟨[], false, ?_, ?_⟩
-      · simp [he]
-      · rw [secsText_nil]; exact (List.isEmpty_iff.mp he).symm
-    · by_cases hp : h.prefixOk = true
-      · refine ⟨[(false, expandB cfg.tabWidth h.code)], false, ?_, ?_⟩
-        · simp [he, hp]
-        · exact secsText_single _ _
-      · exfalso
-        simp [hitOk, hk, hs, hp] at hok
-        have hc : h.code = [] := hok.1.2
-        rw [hc, expandB_nil] at he
-        simp at he
-  · by_cases he : (expandB cfg.tabWidth h.code).isEmpty = true
-    · refine ⟨[], true, ?_, ?_⟩
-      · simp [he]
-      · rw [secsText_nil]; exact (List.isEmpty_iff.mp he).symm
-    · refine ⟨[(false, expandB cfg.tabWidth h.code)], true, ?_, ?_⟩
-      · simp [he]
-      · exact secsText_single _ _
+    by_cases hp : h.prefixOk = true
+    · simp only [hp, if_true]
+      exact hplain false
+    · rw [if_neg hp]
+      by_cases hfix : Generated.Grep.fixPrefixCheck = true
+      · rw [if_pos hfix]
+        exact hplain true
+      · rw [if_neg hfix]
+        simp only [hitOk, hk, hs, Bool.and_eq_true, Bool.or_eq_true] at hok
+        rcases hok.1.2 with ((h1 | h1) | h1) | h1
+        · simp at h1
+        · exact absurd h1 hp
+        · exact absurd h1 hfix
+        · have hst : style = .ripgrep := by simpa using h1.1
+          have hc : h.code = [] := by simpa using h1.2
+          have he : expandB cfg.tabWidth h.code = [] := by rw [hc, expandB_nil]
+          refine ⟨[], false, ?_, ?_⟩
+          · simp [he, hst]
+          · rw [secsText_nil, he]
+  · exact hplain true
 
-theorem lineNumberJump_ok (prev cur : Option Nat) (h : cur ≠ some 0) :
+theorem lineNumberJump_ok (prev cur : Option Nat)
+    (h : cur ≠ some 0 ∨ Generated.Grep.fixLineNumberZero = true) :
     ∃ b, lineNumberJump prev cur = .ok b := by
   unfold lineNumberJump
   split
   · exact ⟨_, rfl⟩
-  · exact absurd rfl h
+  · rcases h with h | h
+    · exact absurd rfl h
+    · rw [if_pos h]; exact ⟨_, rfl⟩
   · split <;> exact ⟨_, rfl⟩
 
 /-- In ripgrep style the last header row seen is the path of the state. -/
@@ -103,55 +135,109 @@ theorem stepHit_ok (cfg : Cfg) (style : GrepType) (st : St) (cur : Option (List 
   obtain ⟨secs, trail, hcs, htxt⟩ := codeSections_ok cfg style h hok
   have hk : h.kind ≠ .ignore := by
     intro hk; simp [hitOk, hk] at hok
-  have hn : h.num ≠ some 0 := by
-    intro hn; simp [hitOk, hn] at hok
+  have hn : h.num ≠ some 0 ∨ Generated.Grep.fixLineNumberZero = true := by
+    simp only [hitOk, Bool.and_eq_true, Bool.or_eq_true] at hok
+    rcases hok.1.1.2 with h1 | h1
+    · exact .inl (by simpa using h1)
+    · exact .inr h1
   unfold stepHit
   rw [if_neg hk]
   cases style with
   | ripgrep =>
-    have hrow : (h.code.isEmpty && h.num.isNone) = false := by
-      simp [hitOk] at hok
-      cases hnum : h.num <;> simp_all
+    -- the row written for the hit, whichever branch is taken
+    have hrow : ∃ n' secs' trail',
+        (if (Generated.Grep.fixEmptyRow && h.code.isEmpty && h.num.isNone) = true then
+            (none : Option Nat) = n' ∧ ([] : List (Bool × Bytes)) = secs' ∧ false = trail'
+          else (h.code.isEmpty && h.num.isNone) = false ∧ h.num = n' ∧ secs = secs' ∧ trail = trail') ∧
+        n' = h.num ∧ secsText secs' = expandB cfg.tabWidth h.code := by
+      by_cases hE : (Generated.Grep.fixEmptyRow && h.code.isEmpty && h.num.isNone) = true
+      · refine ⟨none, [], false, ?_, ?_, ?_⟩
+        · rw [if_pos hE]; exact ⟨rfl, rfl, rfl⟩
+        · simp only [Bool.and_eq_true] at hE
+          have := hE.2; simp at this; exact this.symm
+        · simp only [Bool.and_eq_true] at hE
+          have hc : h.code = [] := by simpa using hE.1.2
+          rw [hc, expandB_nil]; rfl
+      · refine ⟨h.num, secs, trail, ?_, rfl, htxt⟩
+        rw [if_neg hE]
+        refine ⟨?_, rfl, rfl, rfl⟩
+        simp only [hitOk, Bool.and_eq_true, Bool.or_eq_true] at hok
+        rcases hok.2 with (h1 | h1) | h1
+        · cases hnum : h.num <;> simp_all
+        · cases hc : h.code <;> simp_all
+        · cases hb : (h.code.isEmpty && h.num.isNone)
+          · rfl
+          · exfalso; apply hE
+            rw [Bool.and_assoc, hb, h1]; rfl
+    obtain ⟨n', secs', trail', hshape, hn', htxt'⟩ := hrow
+    have hstep : ∀ (pre : List Row),
+        (if (Generated.Grep.fixEmptyRow && h.code.isEmpty && h.num.isNone) = true then
+          (Except.ok (some (h.kind, h.path, h.num), pre ++ [Row.code none none h.kind [] false]) :
+            Except Panic (St × List Row))
+        else
+          match codeSections cfg .ripgrep h with
+          | .error e => .error e
+          | .ok (secs, trail) =>
+            .ok (some (h.kind, h.path, h.num), pre ++
+              (if (h.code.isEmpty && h.num.isNone) = true then []
+               else [Row.code none h.num h.kind secs trail]))) =
+        .ok (some (h.kind, h.path, h.num), pre ++ [Row.code none n' h.kind secs' trail']) := by
+      intro pre
+      by_cases hE : (Generated.Grep.fixEmptyRow && h.code.isEmpty && h.num.isNone) = true
+      · rw [if_pos hE] at hshape ⊢
+        obtain ⟨h1, h2, h3⟩ := hshape
+        subst h1 h2 h3; rfl
+      · rw [if_neg hE] at hshape ⊢
+        obtain ⟨h0, h1, h2, h3⟩ := hshape
+        subst h1 h2 h3
+        simp only [hcs, h0]
+        rfl
     cases st with
     | none =>
       obtain ⟨jump, hj⟩ := lineNumberJump_ok none h.num hn
-      simp only [hj, hs, hcs, hrow]
-      refine ⟨_, rfl, ?_⟩
+      simp only [hj, hs]
+      refine ⟨_, hstep _, ?_⟩
       intro more
-      simp [attachFrom, curAfter, htxt]
+      simp [attachFrom, curAfter, htxt', hn']
     | some s =>
       obtain ⟨k, p, n⟩ := s
       obtain ⟨jump, hj⟩ := lineNumberJump_ok n h.num hn
-      simp only [hj, hs, hcs, hrow]
-      refine ⟨_, rfl, ?_⟩
+      simp only [hj, hs]
+      refine ⟨_, hstep _, ?_⟩
       intro more
       have hc : cur = some p := inv rfl
       by_cases hp : p = h.path
       · subst hp
         by_cases hsec : ((k == Kind.context || h.kind == Kind.context) && jump) = true
-        · simp [hsec, attachFrom, curAfter, htxt, hc]
-        · simp [hsec, attachFrom, curAfter, htxt, hc]
-      · simp [hp, attachFrom, curAfter, htxt]
+        · simp [hsec, attachFrom, curAfter, htxt', hc, hn']
+        · simp [hsec, attachFrom, curAfter, htxt', hc, hn']
+      · simp [hp, attachFrom, curAfter, htxt', hn']
   | classic =>
     have hatt : ∀ more, attachFrom cur ([Row.code (some h.path) h.num h.kind secs false] ++ more) =
         (some h.path, h.num, expandB cfg.tabWidth h.code) ::
           attachFrom (curAfter .classic cur h) more := by
       intro more; simp [attachFrom, curAfter, htxt]
     have hatt2 : (h.kind = .contextHeader && cfg.headerAsHunkHeader) = true →
-        ∀ more, attachFrom cur ([Row.funcHeader h.path (h.num.getD 0)
+        ∀ more, attachFrom cur ([Row.funcHeader h.path
+          (if Generated.Grep.fixHeaderNumber = true then h.num else some (h.num.getD 0))
           (expandB cfg.tabWidth h.code)] ++ more) =
         (some h.path, h.num, expandB cfg.tabWidth h.code) ::
           attachFrom (curAfter .classic cur h) more := by
       intro hf more
-      have hsome : h.num.isSome = true := by
-        simp [hitOk] at hok
-        simp at hf
-        rcases hok.2 with (h1 | h1) | h1
-        · exact absurd hf.1 h1
-        · rw [hf.2] at h1; cases h1
-        · exact h1
-      obtain ⟨n, hn'⟩ := Option.isSome_iff_exists.mp hsome
-      simp [attachFrom, curAfter, hn']
+      have hnum : (if Generated.Grep.fixHeaderNumber = true then h.num else some (h.num.getD 0))
+          = h.num := by
+        by_cases hfix : Generated.Grep.fixHeaderNumber = true
+        · rw [if_pos hfix]
+        · rw [if_neg hfix]
+          simp only [hitOk, Bool.and_eq_true, Bool.or_eq_true] at hok
+          simp at hf
+          rcases hok.2 with (h1 | h1) | h1
+          · simp [hf.1, hf.2] at h1
+          · obtain ⟨n, hn'⟩ := Option.isSome_iff_exists.mp h1
+            simp [hn']
+          · exact absurd h1 hfix
+      rw [hnum]
+      simp [attachFrom, curAfter]
     cases st with
     | none =>
       obtain ⟨jump, hj⟩ := lineNumberJump_ok none h.num hn
